@@ -74,7 +74,24 @@ fn canon_request(req: &Request) -> String {
         let vals: Vec<String> = req.headers.get_all(name.as_str()).iter().map(|v| hx(v.as_bytes())).collect();
         format!("{}={}", hx(n), vals.join(";"))
     }).collect();
-    let cookies: Vec<String> = req.get_cookies().iter().map(|c| format!("{}={}", hx(c.name.as_bytes()), hx(c.value.as_bytes()))).collect();
+    let mut cookies: Vec<String> =
+        req.get_cookies().iter().map(|c| format!("{}={}", hx(c.name.as_bytes()), hx(c.value.as_bytes()))).collect();
+    // the single-cookie lookup must agree with the list: the first cookie of that name, nothing for a name that is not there
+    {
+        let list = req.get_cookies();
+        let mut seen: Vec<&str> = Vec::new();
+        for c in &list {
+            if seen.contains(&c.name.as_str()) { continue; }
+            seen.push(c.name.as_str());
+            match req.get_cookie(c.name.as_str()) {
+                Some(g) if g.value == c.value => {}
+                other => cookies.push(format!("LOOKUP-MISMATCH:{}:{}", hx(c.name.as_bytes()), match other { Some(g) => hx(g.value.as_bytes()), None => "none".into() })),
+            }
+        }
+        if !seen.contains(&"no-such-cookie") && req.get_cookie("no-such-cookie").is_some() {
+            cookies.push("LOOKUP-MISMATCH:absent-name-found".into());
+        }
+    }
     format!("OK {} {} {} {} H[{}] C[{}] A[{}/{}/{}] K[{}]", req.method, hx(req.uri.as_bytes()), hx(req.query.as_bytes()),
         hx(req.version.as_bytes()), hs.join(","),
         match &req.content { Some(c) => hxl(c), None => "-".into() },
